@@ -1,4 +1,180 @@
-From Coq Require Import List ZArith Bool.
+(* C14 - Entry objects are coherent: getters reflect setters, clones are equal.
+   Property theorems only; each is closed by [exact] of a lemma of Entry/EntryProofs.v.
+   The model (Entry/EntryDefs.v, [step false]) is the behaviour of the tree with fixes/C14-*.diff
+   applied; [step true] is the behaviour before the fixes, used for the *_refuted statements. *)
+From Coq Require Import List ZArith NArith Bool Permutation.
 From LA Require Import Base.Val Gen.EntryConsts Entry.EntryDefs Entry.EntryProofs.
-Theorem C14_placeholder : True. Proof. exact placeholder. Qed.
-Print Assumptions C14_placeholder.
+Import ListNotations.
+Local Open Scope Z_scope.
+
+(* For EVERY finite program of setters / unsetters / copy_stat / clear / clone / swap, after EVERY
+   step, every getter of the object and of its clone returns what the abstract "last relevant
+   setter wins" specification says: the return value of the call is equal, all getter groups are
+   equal (times, ids, mode / perm / filetype, dev / rdev split and combined, is-set flags, link
+   names, strings, sparse map, struct stat) and the xattr enumeration is a permutation. *)
+Theorem C14_refines : forall ms : list mop,
+  Forall2 (fun a b : Z * obs * option obs =>
+             fst (fst a) = fst (fst b) /\
+             (obs_nox (snd (fst a)) = obs_nox (snd (fst b)) /\ Permutation (o_xattr (snd (fst a))) (o_xattr (snd (fst b)))) /\
+             match snd a, snd b with
+             | None, None => True
+             | Some x, Some y => obs_nox x = obs_nox y /\ Permutation (o_xattr x) (o_xattr y)
+             | _, _ => False
+             end)
+          (mrun false (init, None) ms) (sp_mrun (spec_init, None) ms).
+Proof. exact refines. Qed.
+Print Assumptions C14_refines.
+
+(* the same, one call at a time, from ANY object satisfying the invariant (reachable or not) *)
+Theorem C14_step_refines : forall e o, Inv e ->
+  abs (fst (step false e o)) = fst (sp_step (abs e) o) /\
+  snd (step false e o) = snd (sp_step (abs e) o) /\
+  Inv (fst (step false e o)).
+Proof. exact step_ok. Qed.
+Print Assumptions C14_step_refines.
+
+(* nanoseconds normalised into seconds: FIX_NS (C truncating / and %, then the negative branch)
+   leaves 0 <= nsec < 10^9 and, unless the seconds leave int64, preserves the instant *)
+Theorem C14_fix_ns_normal : forall t ns t' ns',
+  fix_ns t ns = (t', ns') ->
+  0 <= ns' < FIX_NS_DIV /\
+  (- 2^63 <= t + ns / FIX_NS_DIV < 2^63 -> t' * FIX_NS_DIV + ns' = t * FIX_NS_DIV + ns).
+Proof. exact fix_ns_normal. Qed.
+Print Assumptions C14_fix_ns_normal.
+
+Theorem C14_fix_ns_is_floor_division : forall t ns,
+  fix_ns t ns = (s64 (t + ns / FIX_NS_DIV), ns mod FIX_NS_DIV).
+Proof. exact fix_ns_floor. Qed.
+Print Assumptions C14_fix_ns_is_floor_division.
+
+(* file type versus permission bits inside mode: a partition, on every reachable object *)
+Theorem C14_mode_partition : forall e, reach e ->
+  Z.lor (g_filetype e) (g_perm e) = mode e /\ Z.land (g_filetype e) (g_perm e) = 0 /\
+  g_filetype e = Z.land AE_IFMT (mode e).
+Proof. exact (fun e H => mode_split e (reach_Inv e H)). Qed.
+Print Assumptions C14_mode_partition.
+
+(* hard-link versus symlink target: never both *)
+Theorem C14_link_exclusive : forall e, reach e -> g_hardlink e = None \/ g_symlink e = None.
+Proof. exact (fun e H => link_exclusive e (reach_Inv e H)). Qed.
+Print Assumptions C14_link_exclusive.
+
+(* split versus combined device numbers *)
+Theorem C14_dev_consistent : forall e, reach e ->
+  g_dev (dev e) = dev_make (g_major (dev e)) (g_minor (dev e)) /\
+  rdev_guard e (g_dev (rdev e)) = dev_make (rdev_guard e (g_major (rdev e))) (rdev_guard e (g_minor (rdev e))).
+Proof. exact (fun e H => dev_consistent e (reach_Inv e H)). Qed.
+Print Assumptions C14_dev_consistent.
+
+Theorem C14_dev_roundtrip :
+  (forall d, 0 <= d < 2^64 -> dev_make (dev_major d) (dev_minor d) = d) /\
+  (forall a b, dev_major (dev_make a b) = u32 a /\ dev_minor (dev_make a b) = u32 b).
+Proof. exact (conj dev_make_split (fun a b => conj (dev_major_make a b) (dev_minor_make a b))). Qed.
+Print Assumptions C14_dev_roundtrip.
+
+(* archive_entry_stat never returns a stale structure *)
+Theorem C14_stat_coherent : forall e, reach e ->
+  snd (do_stat e) = stat_compute e /\ stat_compute e = sp_stat (abs e).
+Proof. exact (fun e H => stat_coherent e (reach_Inv e H)). Qed.
+Print Assumptions C14_stat_coherent.
+
+(* the sparse map is always ascending, disjoint and merged *)
+Theorem C14_sparse_sorted : forall e, reach e -> sp_wf (sparse_r e).
+Proof. exact reach_sparse_wf. Qed.
+Print Assumptions C14_sparse_sorted.
+
+(* a clone is indistinguishable from the original through every getter (xattrs: as a multiset) *)
+Theorem C14_clone_equal : forall e, reach e ->
+  obs_nox (snd (observe (clone false e))) = obs_nox (snd (observe e)) /\
+  Permutation (o_xattr (snd (observe (clone false e)))) (o_xattr (snd (observe e))).
+Proof. exact (fun e H => clone_equal e (reach_Inv e H)). Qed.
+Print Assumptions C14_clone_equal.
+
+(* later changes to one do not affect the other (structural in a functional model; the real
+   objects are checked for it by the correspondence harness after every step) *)
+Theorem C14_clone_independent : forall lg e c o, snd (fst (mstep lg (e, Some c) (MOp o))) = Some c.
+Proof. exact clone_independent. Qed.
+Print Assumptions C14_clone_independent.
+
+(* the multibyte, wide and UTF-8 views of a string agree: for the three-form lazy-conversion
+   string of archive_string.c, if the locale conversions are mutually inverse on the encodings of
+   a text, every view returns the encoding of that text, whichever form was stored and in
+   whatever order the views are read *)
+Theorem C14_views_agree : forall (T : Type) (em eu : T -> bytes) (ew : T -> list N) (c : conv) (t : T) gs m,
+  (m2w c (em t) = Some (ew t) /\ w2m c (ew t) = Some (em t) /\ u2m c (eu t) = Some (em t) /\ m2u c (em t) = Some (eu t)) ->
+  repr T em eu ew m t ->
+  ms_gets c gs m = map (fun g => expected T em eu ew g t) gs.
+Proof. exact views_agree. Qed.
+Print Assumptions C14_views_agree.
+
+Theorem C14_views_setters : forall (T : Type) (em eu : T -> bytes) (ew : T -> list N) (c : conv) (t : T),
+  conv_ok T em eu ew c t ->
+  repr T em eu ew (ms_copy_mbs (em t)) t /\ repr T em eu ew (ms_copy_utf8 (eu t)) t /\
+  repr T em eu ew (ms_copy_wcs (ew t)) t /\
+  repr T em eu ew (fst (ms_update_utf8 c (eu t))) t /\ snd (ms_update_utf8 c (eu t)) = true.
+Proof. exact setters_repr. Qed.
+Print Assumptions C14_views_setters.
+
+(* the regenerated AE_SET_* constants are pairwise distinct single bits and none is unknown to the model *)
+Theorem C14_ae_set_bits : forallb is_bit AE_SET_ALL = true /\ NoDup AE_SET_ALL /\ AE_SET_UNKNOWN_COUNT = 0.
+Proof. exact AE_SET_wf. Qed.
+Print Assumptions C14_ae_set_bits.
+
+(* ---------------------------------------------------------------- findings: the tree before the fixes *)
+(* F-C14-1  archive_entry_set_symlink(e,"sym"); archive_entry_copy_hardlink(e,"hard"):
+   archive_entry_hardlink() and archive_entry_symlink() both return "hard" *)
+Theorem C14_legacy_copy_hardlink_refuted :
+  let ops := [OLink LSym VSet (Some str_sym); OLink LHard VCopy (Some str_hard)] in
+  g_hardlink (run_lg true ops) = Some str_hard /\ g_symlink (run_lg true ops) = Some str_hard /\
+  g_hardlink (run_lg false ops) = Some str_hard /\ g_symlink (run_lg false ops) = None.
+Proof. exact legacy_copy_hardlink. Qed.
+Print Assumptions C14_legacy_copy_hardlink_refuted.
+
+Theorem C14_legacy_refines_refuted :
+  exists ms, ~ Forall2 out_rel (mrun true (init, None) ms) (sp_mrun (spec_init, None) ms).
+Proof. exact legacy_refines_refuted. Qed.
+Print Assumptions C14_legacy_refines_refuted.
+
+(* F-C14-2  archive_entry_set_dev(e, makedev(3,4)); archive_entry_set_devmajor(e, 5): devminor() = 0 *)
+Theorem C14_legacy_set_devmajor_refuted :
+  let ops := [ODev DDev PComb (dev_make 3 4); ODev DDev PMaj 5] in
+  g_minor (dev (run_lg true ops)) = 0 /\ g_minor (dev (run_lg false ops)) = 4 /\
+  g_major (dev (run_lg false ops)) = 5 /\ g_dev (dev (run_lg false ops)) = dev_make 5 4.
+Proof. exact legacy_set_devmajor. Qed.
+Print Assumptions C14_legacy_set_devmajor_refuted.
+
+(* F-C14-3  set_size(100); sparse_add_entry(10,50); set_size(20); clone: the clone lost the block *)
+Theorem C14_legacy_clone_sparse_refuted :
+  let e := run_lg true [OId KSize 100; OSparseAdd 10 50; OId KSize 20] in
+  o_sparse (snd (observe e)) = [(10, 50)] /\ o_sparse (snd (observe (clone true e))) = [] /\
+  o_sparse (snd (observe (clone false e))) = [(10, 50)].
+Proof. exact legacy_clone_sparse. Qed.
+Print Assumptions C14_legacy_clone_sparse_refuted.
+
+(* F-C14-4  set_mode(0100644); stat(); acl_add_entry(ACCESS, rwx, USER_OBJ): mode() = 0100744 but
+   archive_entry_stat()->st_mode = 0100644 (the cached structure is not invalidated) *)
+Theorem C14_legacy_stat_stale_refuted :
+  let ms := [MOp (OMode 33188); MOp (OAclSpecial TUserObj 7)] in
+  (exists r o c, nth 1 (mrun true (init, None) ms) (0, snd (observe init), None) = (r, o, c) /\
+                 nth 0 (o_mode o) 0 = 33252 /\ nth 10 (o_stat o) 0 = 33188) /\
+  (exists r o c, nth 1 (mrun false (init, None) ms) (0, snd (observe init), None) = (r, o, c) /\
+                 nth 0 (o_mode o) 0 = 33252 /\ nth 10 (o_stat o) 0 = 33252).
+Proof. exact legacy_stat_stale. Qed.
+Print Assumptions C14_legacy_stat_stale_refuted.
+
+(* non-vacuity: a concrete program exercising coupled fields; the object is reachable, the clone
+   keeps its link name and its (reversed) xattr list while the original is changed *)
+Example C14_nonvacuous :
+  let ms := [MOp (OLink LSym VSet (Some str_sym)); MOp (OTime KM 5 (-1)); MOp (ODev DDev PComb (dev_make 3 4));
+             MOp (OXattrAdd [97%N] [1%N]); MOp (OXattrAdd [98%N] [2%N]); MClone;
+             MOp (OLink LHard VCopy (Some str_hard)); MOp (ODev DDev PMaj 5); MOp (OMode 33188)] in
+  match last (mrun false (init, None) ms) (0, snd (observe init), None) with
+  | (_, o, Some c) =>
+      o_hardlink o = Some str_hard /\ o_symlink o = None /\ o_symlink c = Some str_sym /\ o_hardlink c = None /\
+      nth 3 (o_times o) (0, 0, 0) = (4, 999999999, AE_SET_MTIME) /\
+      o_dev o = [dev_make 5 4; AE_SET_DEV; 5; 4; 0; 0; 0; 0] /\ nth 0 (o_dev c) 0 = dev_make 3 4 /\
+      o_mode o = [33188; 420; AE_SET_PERM; 32768; AE_SET_FILETYPE] /\
+      o_xattr o = [([98%N], [2%N]); ([97%N], [1%N])] /\ o_xattr c = [([97%N], [1%N]); ([98%N], [2%N])]
+  | _ => False
+  end.
+Proof. vm_compute. repeat split; reflexivity. Qed.
